@@ -1544,6 +1544,33 @@ func ruleAuthenticatorListOwnership(c *Ctx, rid string) {
 					c.bad(rid, fmt.Sprintf("%s/clears-authenticators", c.P.key(fn)), c.P.instrPos(ins), "the framework clears the authenticator list: rules registered by the application (client-certificate common names) are dropped and the TLS gate admits every certificate of the CA")
 				}
 			}
+			// the list published through an atomic.Pointer: its Store is the write
+			if cc := callCommon(ins); cc != nil && strings.HasPrefix(calleeName(cc), "(*sync/atomic.Pointer[") && strings.HasSuffix(calleeName(cc), ").Store") && len(cc.Args) == 2 {
+				if owner, f, _, ok := fieldOf(cc.Args[0]); ok && owner == "auth.AuthManager" && f == "authenticators" {
+					n++
+					okStore := false
+					switch {
+					case fn.Name() == "ClearAuthenticators" && fnPkgPath(fn) == pkgAuth:
+						okStore = true
+					case fn.Signature.Recv() == nil && fnPkgPath(fn) == pkgAuth:
+						okStore = true
+					default:
+						// a new slice one longer than the old list, the old list copied into it
+						if al, isAl := strip(cc.Args[1]).(*ssa.Alloc); isAl {
+							for _, st := range allocStores(al) {
+								if grownCopyOf(fn, strip(st.Val)) {
+									okStore = true
+								}
+							}
+						}
+					}
+					if !okStore {
+						bad++
+						c.bad(rid, fmt.Sprintf("%s/authenticators-store", c.P.key(fn)), c.P.instrPos(ins), "the authenticator list is replaced outside AddAuthenticator/ClearAuthenticators/the constructor, or by something other than the old list plus one element")
+					}
+				}
+				return
+			}
 			st, ok := ins.(*ssa.Store)
 			if !ok {
 				return
@@ -1930,6 +1957,13 @@ func ruleManagerConsultsAll(c *Ctx, rid string) {
 		c.undecided(rid, key, c.P.instrPos(inv), "the authenticators are not consulted in a loop over the list: not modelled")
 		return
 	}
+	// the list the loop ranges over (the interface value invoked is an element of it)
+	var ranged ssa.Value
+	if ld, ok := strip(inv.Call.Value).(*ssa.UnOp); ok && ld.Op == token.MUL {
+		if ia, ok := ld.X.(*ssa.IndexAddr); ok {
+			ranged = strip(ia.X)
+		}
+	}
 	reachAvoidingHeader := func(from []*ssa.BasicBlock) map[*ssa.BasicBlock]bool {
 		seen := map[*ssa.BasicBlock]bool{}
 		st := append([]*ssa.BasicBlock{}, from...)
@@ -1968,7 +2002,7 @@ func ruleManagerConsultsAll(c *Ctx, rid string) {
 		switch {
 		case loop.Blocks[r.Block()]:
 			bad = append(bad, fmt.Sprintf("%s: a result that can be true is returned from inside the loop over the authenticators", c.P.instrPos(r)))
-		case fromEntry[r.Block()] && emptyListFact(factsAt(r.Block()), mgr.Params[0]):
+		case fromEntry[r.Block()] && emptyListFact(factsAt(r.Block()), mgr.Params[0], ranged):
 			// nothing to ask: the list is empty on this path
 		case fromEntry[r.Block()]:
 			bad = append(bad, fmt.Sprintf("%s: a result that can be true is reachable without entering the loop over the authenticators", c.P.instrPos(r)))
@@ -1985,7 +2019,7 @@ func ruleManagerConsultsAll(c *Ctx, rid string) {
 }
 
 // emptyListFact: the facts say that len(recv.<slice field>) == 0.
-func emptyListFact(facts []Atom, recv ssa.Value) bool {
+func emptyListFact(facts []Atom, recv ssa.Value, ranged ssa.Value) bool {
 	for _, at := range facts {
 		if !(at.Kind == "eq" && at.Pos) && !(at.Kind == "lt" && !at.Pos) && !(at.Kind == "le" && at.Pos) {
 			continue
@@ -2011,7 +2045,53 @@ func emptyListFact(facts []Atom, recv ssa.Value) bool {
 			if _, _, base, ok := fieldOf(strip(call.Call.Args[0])); ok && strip(base) == recv {
 				return true
 			}
+			if ranged != nil && strip(call.Call.Args[0]) == ranged {
+				return true // the very list the loop then ranges over
+			}
 		}
 	}
 	return false
+}
+
+// grownCopyOf: v is make([]T, len(old)+1) (possibly resliced) into which old is copied in fn.
+func grownCopyOf(fn *ssa.Function, v ssa.Value) bool {
+	for k := 0; k < 3; k++ {
+		if sl, ok := v.(*ssa.Slice); ok {
+			v = strip(sl.X)
+		}
+	}
+	mk, ok := v.(*ssa.MakeSlice)
+	if !ok {
+		return false
+	}
+	bo, ok := strip(mk.Len).(*ssa.BinOp)
+	if !ok || bo.Op != token.ADD {
+		return false
+	}
+	one, isOne := constInt(bo.Y)
+	ln, isLen := strip(bo.X).(*ssa.Call)
+	if !isOne || one != 1 || !isLen {
+		return false
+	}
+	if b, isB := ln.Call.Value.(*ssa.Builtin); !isB || b.Name() != "len" {
+		return false
+	}
+	old := strip(ln.Call.Args[0])
+	copied := false
+	allInstrs(fn, func(ins ssa.Instruction) {
+		if call, ok := ins.(*ssa.Call); ok {
+			if b, isB := call.Call.Value.(*ssa.Builtin); isB && b.Name() == "copy" && len(call.Call.Args) == 2 {
+				dst := strip(call.Call.Args[0])
+				for k := 0; k < 3; k++ {
+					if sl, ok := dst.(*ssa.Slice); ok {
+						dst = strip(sl.X)
+					}
+				}
+				if dst == ssa.Value(mk) && strip(call.Call.Args[1]) == old {
+					copied = true
+				}
+			}
+		}
+	})
+	return copied
 }
